@@ -130,6 +130,8 @@ class BackendRegistryState:
 
         self.backends.append(backend)
         self.name_to_backend[backend.name] = backend
+        # A new backend may take precedence for tensor types that have already been resolved
+        self.tensortypes_to_backend.clear()
 
     def _register_on_import(self, module_name, backend_name, backend_factory):
         if module_name in sys.modules:
@@ -167,6 +169,10 @@ class BackendRegistryState:
 
         if has_checked_new_imports is None:
             has_checked_new_imports = [False]
+
+        # Backends of modules that have been imported in the meantime take part in the resolution
+        if any(module_name in sys.modules for module_name in self.uninitialized_backends):
+            self._check_new_imports(has_checked_new_imports)
 
         def _get_by_tensor(tensor):
             # Find backends that support this tensor type
